@@ -178,13 +178,20 @@ def check_pid_wrapper(chk, prog, sim):
                     ok = False
                     continue
                 errs = [p for p in leaf.pc if p[0] == "variant" and p[2] == "Err"]
-                if errs:
-                    continue   # error propagation paths: order prefix only
-                stl = leaf.state
                 ev = []
                 for e in leaf.effects:
                     if e[0] == "call":
                         ev.append(e[2].split("::")[-1] + "@" + e[1])
+                if errs:
+                    # error propagation paths: order prefix only - but the controller is not touched there either (a reset on a
+                    # rejected output makes the following outputs differ from the stand-alone controller's)
+                    touched = [x for x in ev if "@*self.pid" in x and not x.startswith("update@") and not x.split("@")[0] in ("borrow", "borrow_mut", "clone")]
+                    if touched:
+                        chk.violation("C20.P", key + ":update:pid-touched:error-path:" + case, "PIDWrapper::update with %s calls %s on its CommandPID on a path that propagates an error: a stand-alone CommandPID fed the same "
+                                      "times, states and commands receives nothing but update()" % (case, touched), fn=fn["pretty"], file=loc(fn["span"]), path=leaf.pc)
+                        ok = False
+                    continue
+                stl = leaf.state
                 pid_upd = [x for x in ev if x.startswith("update@*self.pid")]
                 pid_other = [x for x in ev if "@*self.pid" in x and not x.startswith("update@") and not x.split("@")[0] in ("borrow", "borrow_mut", "clone")]
                 if pid_other:
